@@ -21,6 +21,8 @@ def prepare(prop, tier, cfg, keep=False):
         os.makedirs(ctx['tmp'])
         src = os.path.join(scratch, 'src')
         ctx['src'] = src
+        ctx['env']['VSIM_SRC'] = src
+        ctx['env']['VSIM_TMP'] = ctx['tmp']
         world = WORLDS[cfg['world']]
         zz = os.path.join(src, 'zzverif')
         os.makedirs(zz)
